@@ -359,3 +359,24 @@ def install_watchdog(seconds):
 
 def fmt_exc():
     return traceback.format_exc()[-1500:]
+
+
+import contextlib
+
+
+@contextlib.contextmanager
+def debug_logging():
+    """The host application runs with verbose logging switched on for the framework (its loggers at DEBUG, records discarded)."""
+    root = logging.getLogger('playback')
+    old_level, old_propagate, null = root.level, root.propagate, logging.NullHandler()
+    root.addHandler(null)
+    root.setLevel(logging.DEBUG)
+    root.propagate = False
+    logging.disable(logging.NOTSET)           # (the harness silences logging globally otherwise)
+    try:
+        yield
+    finally:
+        logging.disable(logging.CRITICAL)
+        root.setLevel(old_level)
+        root.propagate = old_propagate
+        root.removeHandler(null)
